@@ -524,8 +524,15 @@ func (lr *limitReader) Read(p []byte) (int, error) {
 	}
 	n, err := lr.r.Read(p)
 	lr.n -= int64(n)
-	if lr.n < 0 {
+	if lr.n <= 0 {
 		lr.n = 0
+		// The budget of limit+1 bytes is used up, so the message is larger than the
+		// limit even if it ends right here, as a flate stream does when its last
+		// block is marked final.
+		if err == io.EOF || err == io.ErrUnexpectedEOF {
+			err = fmt.Errorf("read limited at %v bytes", lr.limit.Load())
+			lr.c.writeError(StatusMessageTooBig, err)
+		}
 	}
 	return n, err
 }
